@@ -292,7 +292,7 @@ def transitions_for(c):
 
 def extra_legs(c):
     """single hops outside the chain alphabet"""
-    return ["dictp", "livedump"] if c == "ac" else []
+    return ["dictp", "dictcr", "livedump"] if c == "ac" else []
 
 
 def apply_transition(t, c, obj, parent):
@@ -304,6 +304,8 @@ def apply_transition(t, c, obj, parent):
         return cls.from_dict(obj.to_dict(), parent)
     if t == "dictp":  # collection dictionary without the parent, parent handed over explicitly
         return AnnotationCollection.from_dict(obj.to_dict(), parent)
+    if t == "dictcr":  # chunk-relative dictionary WITH the parent: refused (as documented) or faithful
+        return AnnotationCollection.from_dict(obj.to_dict(chromosome_relative_coordinates=False, export_parent=True))
     if t == "pickle":
         return pickle.loads(pickle.dumps(obj))
     if t == "livedump":
